@@ -185,6 +185,165 @@ def ffi_programs(lib):
 
 
 # ---------------------------------------------------------------------------------------------
+# error paths by construct: (error exit x operand type x syntactic context)
+LIT = {"int": ("1", "7", "0"), "long": ("1L", "7L", "0L"), "float": ("1.5", "7.0", "0.0"), "double": ("1.5d", "7.0d", "0.0d")}
+TYPES = ["int", "long", "float", "double"]
+
+ENUM_DECL = "enum Z { zero, one, two }\n"
+
+def contexts():
+    """name -> (types it exists for, function(T, E, ONE) -> program text)"""
+    C = []
+    def add(name, fn, types=TYPES):
+        C.append((name, types, fn))
+    add("body", lambda T, E, O: "func f() -> %s { %s }\nfunc main() -> int { f(); 0 }\n" % (T, E))
+    add("let-init", lambda T, E, O: "func f() -> %s { let x = %s; x }\nfunc main() -> int { f(); 0 }\n" % (T, E))
+    add("var-assign", lambda T, E, O: "func f() -> %s { var x = %s; x = %s; x }\nfunc main() -> int { f(); 0 }\n" % (T, O, E))
+    add("left-operand", lambda T, E, O: "func f(a : %s) -> %s { (%s) + a }\nfunc main() -> int { f(%s); 0 }\n" % (T, T, E, O))
+    add("right-operand", lambda T, E, O: "func f(a : %s) -> %s { a * (%s) }\nfunc main() -> int { f(%s); 0 }\n" % (T, T, E, O))
+    add("unary-minus", lambda T, E, O: "func f() -> %s { -(%s) }\nfunc main() -> int { f(); 0 }\n" % (T, E))
+    add("array-literal", lambda T, E, O: "func f() -> %s { let a = [ %s, %s, %s ] : %s; a[0] }\nfunc main() -> int { f(); 0 }\n" % (T, O, E, O, T))
+    add("call-argument-last", lambda T, E, O: "func g(a : %s, b : %s) -> %s { a }\nfunc f() -> %s { g(%s, %s) }\nfunc main() -> int { f(); 0 }\n" % (T, T, T, T, O, E))
+    add("call-argument-first", lambda T, E, O: "func g(a : %s, b : string) -> %s { a }\nfunc f() -> %s { g(%s, \"s\" + \"t\") }\nfunc main() -> int { f(); 0 }\n" % (T, T, T, E))
+    add("record-constructor", lambda T, E, O: "record R { a : %s; s : string; b : %s; }\nfunc f() -> %s { let r = R(%s, \"s\", %s); r.b }\nfunc main() -> int { f(); 0 }\n" % (T, T, T, O, E))
+    add("match-arm", lambda T, E, O: ENUM_DECL + "func f(c : Z) -> %s { match (c) { Z::zero -> %s; Z::one -> %s; else -> %s; } }\nfunc main() -> int { f(Z::one); 0 }\n" % (T, O, E, O))
+    add("cond-branch", lambda T, E, O: "func f(c : bool) -> %s { c ? %s : %s }\nfunc main() -> int { f(true); 0 }\n" % (T, O, E))
+    add("cond-condition", lambda T, E, O: "func f() -> int { (%s) == %s ? 1 : 0 }\nfunc main() -> int { f() }\n" % (E, O))
+    add("if-else", lambda T, E, O: "func f(c : bool) -> %s { if (c) { %s } else { %s } }\nfunc main() -> int { f(true); 0 }\n" % (T, E, O))
+    add("while-body", lambda T, E, O: "func f() -> int { var i = 0; var x = %s; while (i < 3) { x = %s; i = i + 1 }; i }\nfunc main() -> int { f() }\n" % (O, E))
+    add("while-condition", lambda T, E, O: "func f() -> int { var i = 0; while ((%s) < %s) { i = i + 1 }; i }\nfunc main() -> int { f() }\n" % (E, O))
+    add("for-range-bound", lambda T, E, O: "func f() -> int { var s = 0; for (i in [ 0 .. %s ]) { s = s + i }; s }\nfunc main() -> int { f() }\n" % E, ["int"])
+    add("array-index", lambda T, E, O: "func f() -> int { let a = [ 1, 2, 3 ] : int; a[%s] }\nfunc main() -> int { f() }\n" % E, ["int"])
+    add("array-dims", lambda T, E, O: "func f() -> int { let a = {[ %s ]} : int; 0 }\nfunc main() -> int { f() }\n" % E, ["int"])
+    add("slice-bound", lambda T, E, O: "func f() -> int { let a = [ 1, 2, 3 ] : int; let b = a[0 .. %s]; 0 }\nfunc main() -> int { f() }\n" % E, ["int"])
+    add("global-let", lambda T, E, O: "let g = %s;\nfunc main() -> int { 0 }\n" % E)
+    add("global-var", lambda T, E, O: "var g = %s;\nfunc main() -> int { g = %s; 0 }\n" % (E, O))
+    add("lambda-body", lambda T, E, O: "func f() -> %s { let h = let func (q : %s) -> %s { q + (%s) }; h(%s) }\nfunc main() -> int { f(); 0 }\n" % (T, T, T, E, O))
+    add("nested-func", lambda T, E, O: "func f() -> %s { func h() -> %s { %s }; h() }\nfunc main() -> int { f(); 0 }\n" % (T, T, E))
+    add("list-comprehension", lambda T, E, O: "func f() -> int { let a = [ %s | i in [ 1, 2, 3 ] : int ] : %s; 0 }\nfunc main() -> int { f() }\n" % (E, T))
+    add("catch-handler", lambda T, E, O: "func f(a : int) -> %s { 10 / a; %s } catch (division_by_zero) { %s }\nfunc main() -> int { f(0); 0 }\n" % (T, O, E))
+    add("builtin-argument", lambda T, E, O: "func f() -> int { %s(%s); 0 }\nfunc main() -> int { f() }\n" % ({"int": "print", "long": "printl", "float": "printf", "double": "printd"}[T], E))
+    add("assert-argument", lambda T, E, O: "func f() -> int { assert((%s) == %s); 0 }\nfunc main() -> int { f() }\n" % (E, O))
+    add("string-concat", lambda T, E, O: "func f() -> string { \"v=\" + (%s) }\nfunc main() -> int { prints(f()); 0 }\n" % E, ["int"])
+    add("second-function", lambda T, E, O: "record R { a : int; }\nfunc first(n : int) -> R { R(n) }\nfunc f() -> %s { %s }\nfunc third() -> string { \"x\" + \"y\" }\nfunc main() -> int { f(); 0 }\n" % (T, E))
+    add("enum-initialiser", lambda T, E, O: "enum En { a = %s, b, c = 9 }\nfunc main() -> int { En::b == En::c ? 1 : 0 }\n" % E, ["int"])
+    add("enum-initialiser-last", lambda T, E, O: "enum En { a, b = 4, c = %s }\nfunc main() -> int { 0 }\n" % E, ["int"])
+    add("enum-initialiser-referenced", lambda T, E, O: "enum En { a = %s, b = En::a + 1 }\nenum Fn { x = En::b }\nfunc main() -> int { 0 }\n" % E, ["int"])
+    add("enum-record-default", lambda T, E, O: "enum Op { none = %s, some { v : int; } }\nfunc main() -> int { 0 }\n" % E, ["int"])
+    return C
+
+def reducer_faults():
+    """(name, type of the expression, text, needs enum Z)"""
+    F = []
+    for T in TYPES:
+        one, seven, zero = LIT[T]
+        F.append(("div0", T, "%s / %s" % (seven, zero), False))
+        F.append(("div-folded0", T, "(%s + %s) / (%s - %s)" % (one, seven, seven, seven), False))
+        F.append(("div0-in-sum", T, "%s + %s / %s" % (one, seven, zero), False))
+        F.append(("div0-of-div0", T, "(%s / %s) / (%s / %s)" % (seven, zero, one, zero), False))
+        if T in ("int", "long"):
+            F.append(("mod0", T, "%s %% %s" % (seven, zero), False))
+            F.append(("mod-folded0", T, "(%s * %s) %% (%s - %s)" % (seven, seven, one, one), False))
+            F.append(("mod0-negated", T, "-(%s %% %s)" % (seven, zero), False))
+    for op, nm in (("/", "div0"), ("%", "mod0")):
+        F.append((nm + "-enum-enum", "int", "Z::two %s Z::zero" % op, True))
+        F.append((nm + "-int-enum", "int", "7 %s Z::zero" % op, True))
+        F.append((nm + "-enum-int", "int", "Z::two %s 0" % op, True))
+    # conversions around the failing fold
+    F.append(("div0-int-converted", "float", "1.5 + 7 / 0", False))
+    F.append(("div0-int-converted", "double", "1.5d * (7 / 0)", False))
+    F.append(("div0-int-converted", "long", "1L + (7 % 0)", False))
+    return F
+
+
+def typecheck_faults():
+    """(name, type, text): expressions that the typechecker rejects, one per kind of complaint"""
+    F = []
+    for T in TYPES:
+        one = LIT[T][0]
+        F.append(("undefined-identifier", T, "nosuch + %s" % one))
+        F.append(("undefined-function", T, "nosuch(%s)" % one))
+        F.append(("bool-operand", T, "%s + true" % one))
+        F.append(("string-for-number", T, "\"text\""))
+        F.append(("member-of-number", T, "(%s).x" % one))
+        F.append(("index-of-number", T, "(%s)[0]" % one))
+        F.append(("nil-operand", T, "nil * %s" % one))
+        F.append(("unknown-enumerator", T, "Nosuch::item"))
+        F.append(("wrong-argument-count", T, "sqrt(1.0, 2.0)"))
+        F.append(("compare-with-string", T, "(%s == \"s\") ? %s : %s" % (one, one, one)))
+    return F
+
+
+def scanner_faults():
+    """(name, text, cut): lexical errors placed where an expression is expected; cut = the input ENDS right after the text"""
+    return [("unterminated-string", "\"abc\n", False), ("bad-decimal-escape", "\"a\\9b\"", False), ("octal-escape-too-large", "\"a\\777b\"", False),
+            ("unknown-character", "1 @ 2", False), ("unknown-character-dollar", "$", False),
+            ("eof-in-string", "\"abc", True), ("eof-in-string-escape", "\"abc\\", True), ("eof-in-comment", "1 + /* open", True),
+            ("eof-in-char", "'c", True)]
+
+
+def parser_faults():
+    return [("missing-operand", "%s + )"), ("stray-brace", "%s }"), ("double-operator", "%s * / %s"), ("unclosed-paren", "(%s + %s")]
+
+
+def error_path_cases():
+    """one program per (error exit x operand type x syntactic context) -> [(name, phase, fault, type, context, source)].
+    Reducer exits: every `division by zero` exit of front/constred.c (expr_div_constred: int, long, enum/enum, int/enum,
+    enum/int, float, double; expr_mod_constred: int, enum/enum, int/enum, enum/int, long) and of front/enumred.c (div, mod,
+    cyclic reference, not reducible to int, duplicate value, unsupported expression), reached directly, through a folded
+    zero, below another operator, twice in one expression, and below an int->float/double/long conversion."""
+    out = []
+    ctxs = contexts()
+    for cname, types, fn in ctxs:
+        for fname, T, E, needs in reducer_faults():
+            if T not in types:
+                continue
+            src = fn(T, E, LIT[T][0])
+            if needs and "enum Z" not in src:
+                src = ENUM_DECL + src
+            out.append(("R.%s.%s.%s" % (fname, T, cname), "reducer", fname, T, cname, src))
+        for fname, T, E in typecheck_faults():
+            if T not in types or (T in ("long", "double") and cname not in ("body", "let-init", "call-argument-last", "array-literal")):
+                continue
+            out.append(("T.%s.%s.%s" % (fname, T, cname), "typecheck", fname, T, cname, fn(T, E, LIT[T][0])))
+        T = "int" if "int" in types else types[0]
+        for fname, E, cut in scanner_faults():
+            src = fn(T, "\x00HOLE\x00", LIT[T][0])
+            i = src.index("\x00HOLE\x00")
+            src = src[:i] + E if cut else src.replace("\x00HOLE\x00", E)
+            out.append(("S.%s.%s.%s" % (fname, T, cname), "scanner", fname, T, cname, src))
+        for fname, E in parser_faults():
+            out.append(("P.%s.%s.%s" % (fname, T, cname), "parser", fname, T, cname, fn(T, E.replace("%s", LIT[T][0]), LIT[T][0])))
+    # enumerator initialisers: the exits of enumred.c that are not divisions
+    EN = [("cyclic-2", "enum En { a = En::b, b = En::a }"), ("cyclic-self", "enum En { a = En::a }"),
+          ("cyclic-3-parenthesised", "enum En { a = (En::b) + 1, b = -(En::c), c = (En::a) }"),
+          ("cyclic-through-other-enum", "enum En { a = Fn::x }\nenum Fn { x = En::a }"),
+          ("cyclic-below-division", "enum En { a = 8 / En::b, b = En::a % 3 }"),
+          ("cyclic-and-div0", "enum En { a = En::b / 0, b = En::a }"),
+          ("duplicate-value", "enum En { a = 1, b = 1 }"), ("duplicate-value-folded", "enum En { a = 2 + 3, b = 10 / 2 }"),
+          ("duplicate-implicit", "enum En { a = 1, b = 0, c }"),
+          ("not-int-long", "enum En { a = 1L }"), ("not-int-float", "enum En { a = 1.5 }"), ("not-int-string", "enum En { a = \"s\" }"),
+          ("not-int-bool", "enum En { a = true }"), ("not-int-comparison", "enum En { a = 1 < 2 }"),
+          ("unsupported-call", "enum En { a = ord('c') }"), ("unsupported-call-of-later-function", "enum En { a = k() }\nfunc k() -> int { 1 }"),
+          ("unsupported-array-deref", "enum En { a = ([ 1, 2 ] : int)[0], b = 3 }"), ("unsupported-seq", "enum En { a = { 1 } }"),
+          ("unsupported-if-else", "enum En { a = if (true) { 1 } else { 2 } }"), ("unsupported-func", "enum En { a = let func () -> int { 1 } }"),
+          ("unsupported-listcomp", "enum En { a = [ i | i in [ 1, 2 ] : int ] : int }"), ("unsupported-identifier", "enum En { a = v }\nvar v = 1;"),
+          ("unsupported-below-operator", "enum En { a = 1 + { 2 } * ord('c'), b = En::a / 0 }"),
+          ("bool-results", "enum En { a = 1 ||| 2, b = ~~~1, c = 1 <<< 40, d = !true }"),
+          ("conditional-div0-taken", "enum En { a = true ? 1 / 0 : 2 }"), ("conditional-div0-not-taken", "enum En { a = false ? 1 / 0 : 2 }"),
+          ("unknown-enumerator", "enum En { a = En::nosuch }"), ("unknown-enum", "enum En { a = Qn::x }"),
+          ("div0-then-more-items", "enum En { a = 1 / 0, b = En::a, c = En::b % 0 }"),
+          ("int-min-div-minus-one", "enum En { a = (0 - 2147483647 - 1) / (0 - 1) }"),
+          ("record-item-default-div0", "enum En { a = 1 / 0, r { v : int; } }")]
+    tails = [("no-use", "func main() -> int { 0 }"), ("used-in-expression", "func main() -> int { En::a + 1 }"),
+             ("used-in-match", "func main() -> int { match (En::a) { En::a -> 1; else -> 0; } }")]
+    for fname, decl in EN:
+        for tname, tail in tails:
+            out.append(("E.%s.%s" % (fname, tname), "enum-reducer", fname, "int", "enum-initialiser/" + tname, decl + "\n" + tail + "\n"))
+    return out
+
+
+# ---------------------------------------------------------------------------------------------
 class MCase:
     __slots__ = ("id", "cls", "data", "path", "opts", "meta")
 
@@ -310,7 +469,8 @@ def outcome_class(o):
         out = o.out or ""
         if "syntax error" in out or "memory exhausted" in out or "unterminated" in out or "bad escape" in out:
             return "parse-error"
-        if "division by zero" in out:
+        if ("division by zero" in out or "cyclic reference" in out or "could not reduce enumerator" in out
+                or "with same value as" in out or ("enumred " in out and "not supported" in out)):
             return "reducer-error"
         return "typecheck-error"
     if o.outcome.startswith("COMPILED"):
@@ -551,6 +711,10 @@ def build_cases(ctx, rng, workdir, scale):
         cases.append(MCase("Y." + nm, "grammar-error", d))
     for nm, d in c05.enum_init_cases(rng, int(150 * scale)):
         cases.append(MCase("E." + nm, "enum-initialisers", d))
+    # error paths by construct: one program per (error exit x operand type x syntactic context)
+    for name, phase, fault, T, cname, src in error_path_cases():
+        cases.append(MCase("X." + name, "errpath:" + phase, src.encode("latin-1"), None, "",
+                           {"phase": phase, "fault": fault, "type": T, "context": cname}))
     # foreign calls: every call shape x (normal | ffi_fail caught | unhandled | in a loop | missing library/symbol)
     try:
         lib = build_ffi_lib(workdir)
@@ -567,6 +731,47 @@ def build_cases(ctx, rng, workdir, scale):
         cases.append(MCase("R." + nm, "runtime:" + nm, src.encode(), None, opts))
         cases.append(MCase("R." + nm + ".smallheap", "runtime:" + nm, src.encode(), None, "mem=300 stack=100"))
     return cases
+
+
+INTENDED = {"reducer": "reducer-error", "enum-reducer": "reducer-error", "typecheck": "typecheck-error", "scanner": "parse-error",
+            "parser": "parse-error"}
+
+
+def error_path_matrix(cases, obs):
+    """the (exit x type x context) distribution of the error-path family, with what each program actually did"""
+    by_phase, exit_type, by_ctx, missed = {}, {}, {}, []
+    n = 0
+    for c in cases:
+        if not c.cls.startswith("errpath:"):
+            continue
+        n += 1
+        m = c.meta
+        o = obs.get(c.id)
+        verdict = judge(c, o)[0]
+        oc = outcome_class(o) if o is not None else "no-record"
+        reached = oc == INTENDED[m["phase"]]
+        ph = by_phase.setdefault(m["phase"], {"programs": 0, "failed_in_the_intended_phase": 0, "monitor_verdicts": {}, "outcomes": {}})
+        ph["programs"] += 1
+        ph["failed_in_the_intended_phase"] += 1 if reached else 0
+        ph["monitor_verdicts"][verdict] = ph["monitor_verdicts"].get(verdict, 0) + 1
+        ph["outcomes"][oc] = ph["outcomes"].get(oc, 0) + 1
+        if m["phase"] in ("reducer", "enum-reducer"):
+            e = exit_type.setdefault("%s/%s" % (m["fault"], m["type"]), {"contexts": 0, "reducer-error": 0, "accepted_by_monitor": 0})
+            e["contexts"] += 1
+            e["reducer-error"] += 1 if reached else 0
+            e["accepted_by_monitor"] += 1 if verdict == "ok" else 0
+        cx = by_ctx.setdefault(m["context"], {"programs": 0, "failed_in_the_intended_phase": 0, "accepted_by_monitor": 0})
+        cx["programs"] += 1
+        cx["failed_in_the_intended_phase"] += 1 if reached else 0
+        cx["accepted_by_monitor"] += 1 if verdict == "ok" else 0
+        if not reached and len(missed) < 25:
+            missed.append({"case": c.id, "outcome": oc, "first_output_line": ((o.out if o is not None else "") or "")[:100]})
+    return {"programs": n, "rule": "one generated program per (error exit x operand type x syntactic context); exits = the 12 division-by-zero "
+            "exits of constred.c (div: int long enum/enum int/enum enum/int float double; mod: int enum/enum int/enum enum/int long) reached "
+            "directly / through a folded zero / below another operator / twice / below a conversion, the exits of enumred.c (div, mod, cyclic, "
+            "not reducible, duplicate value, unsupported expression), 10 kinds of typechecker complaint, 9 lexical errors (4 of them the end of "
+            "the input), 4 syntax errors", "by_phase": by_phase, "reducer_exit_x_type": exit_type, "by_context": by_ctx,
+            "did_not_fail_in_the_intended_phase(first 25)": missed}
 
 
 def lsan_second_opinion(ctx, cases, workdir, timeout):
@@ -707,6 +912,7 @@ def _run(ctx, drv, mon, workdir, t0):
         if k == "ok" and len(ctx.coverage["samples"]) < 5 and len(c.data) < 160 and c.cls.startswith(("runtime", "generated", "mutate")):
             ctx.sample({"class": c.cls, "input": c.data.decode("latin-1"), "outcome": o.outcome, "events": o.events, "monitor": o.monitor})
     ctx.count(evaluations=len(cases), nontrivial=len(nontrivial))
+    ctx.coverage["error_paths_by_construct"] = error_path_matrix(cases, obs)
     # attribution needs deeper stacks: failing cases are grouped by the cheap site (one return address),
     # the smallest of each group are re-run with backtrace() per allocation, and only those are keyed
     findings = {}
@@ -795,7 +1001,8 @@ def _run(ctx, drv, mon, workdir, t0):
     t_ls0 = time.time()
     lcases = [c for c in cases if not c.cls.startswith("nest-parser")]
     if not thorough:
-        lcases = [c for i, c in enumerate(lcases) if c.cls.startswith(("runtime", "kept", "use", "corpus", "ffi")) or i % 4 == 0]
+        lcases = [c for i, c in enumerate(lcases) if c.cls.startswith(("runtime", "kept", "use", "corpus", "ffi", "errpath:reducer", "errpath:enum"))
+                  or i % 4 == 0]
     ls = lsan_second_opinion(ctx, lcases, workdir, timeout)
     ls_counts = {"run": len(ls), "clean": 0, "leak": 0, "asan-error": 0, "other-abnormal": 0}
     lfind = {}
